@@ -5,6 +5,8 @@ package worlds
 import (
 	"bytes"
 	"context"
+	"crypto/tls"
+	"crypto/x509"
 	"fmt"
 	"net"
 	"net/netip"
@@ -19,7 +21,9 @@ import (
 	"github.com/scionproto/scion/pkg/spao"
 
 	"example.com/scion-time/core/client"
+	"example.com/scion-time/core/server"
 	"example.com/scion-time/net/ntp"
+	"example.com/scion-time/net/ntske"
 	"example.com/scion-time/net/scion"
 
 	"verif.local/sim/simcore"
@@ -75,6 +79,10 @@ func c13World(t *testing.T, r *simcore.Run) any {
 	}
 	w := newSCIONWorld(r, time.Duration(tp.Range(0, int64(2*time.Second), "srvoff")), 1)
 	w.net.OnSend = nil
+	if tp.Bool(1, 4, "to-endhost-port") {
+		w.toEndhostPort = true
+		r.Probe("requests-delivered-to-the-endhost-port")
+	}
 	// DRKey epochs (keys change every few virtual seconds in some runs) and an unavailable
 	// daemon on the server side (a fault the driver switches on for single measurements)
 	w.dc.epochLen = []time.Duration{0, 0, 3 * time.Second, 11 * time.Second}[tp.Intn(4, "epochlen")]
@@ -84,7 +92,27 @@ func c13World(t *testing.T, r *simcore.Run) any {
 	srvDSCP := uint8([]int{0, 0, 10, 46, 63}[tp.Intn(5, "sdscp")])
 	cliDSCP := uint8([]int{0, 0, 10, 46, 1}[tp.Intn(5, "cdscp")])
 	forwarder := tp.Bool(1, 3, "forwarder")
-	w.startServers(2, srvAuth, srvDSCP, nil, forwarder)
+	// a quarter of the runs carry NTS on top (the unusual but legal combination of NTS with
+	// SCION packet authentication): the packet authenticator's clauses hold regardless
+	useNTS := tp.Bool(1, 4, "nts")
+	var prov *ntske.Provider
+	var kePool *x509.CertPool
+	if useNTS {
+		prov = ntske.NewProvider()
+		w.net.TLSClientHost = w.cli
+		w.net.Names = map[string]netip.Addr{keHost: netip.MustParseAddr(scSrvIP)}
+		cert, pool := mkCert([]string{keHost}, []string{scSrvIP})
+		kePool = pool
+		lst, err := w.net.ListenStream(hp(scSrvIP, kePort), &tls.Config{Certificates: []tls.Certificate{cert}, MinVersion: tls.VersionTLS13, NextProtos: []string{keALPN}})
+		if err != nil {
+			panic(err)
+		}
+		w.goSafe("ke-accept", func() {
+			server.VerifRunNTSKEServerTLS(context.Background(), quietLog(), lst, scSvcPort, prov)
+		})
+		r.Probe("nts-with-packet-authentication")
+	}
+	w.startServers(2, srvAuth, srvDSCP, prov, forwarder)
 	// path shape
 	var segLens []int
 	switch tp.Intn(5, "pathkind") {
@@ -118,6 +146,12 @@ func c13World(t *testing.T, r *simcore.Run) any {
 	if cliAuth {
 		cl.Auth.Enabled = true
 		cl.Auth.DRKeyFetcher = scion.NewFetcher(w.dc)
+	}
+	if useNTS {
+		cl.Auth.NTSEnabled = true
+		cl.Auth.NTSKEFetcher.TLSConfig = tls.Config{NextProtos: []string{keALPN}, ServerName: keHost, MinVersion: tls.VersionTLS13, RootCAs: kePool}
+		cl.Auth.NTSKEFetcher.Port = fmt.Sprint(kePort)
+		cl.Auth.NTSKEFetcher.Log = quietLog()
 	}
 	filter := &recFilter{}
 	cl.Filter = filter
